@@ -183,7 +183,8 @@ Inductive fkind :=
 | NoFile   (* inline: filename = None *)
 | Txt      (* stand-off plain text file (resource whose filename does not end in .json) *)
 | Json     (* stand-off STAM JSON file (dataset, or resource with a .json filename) *)
-| JsonBroken. (* stand-off STAM JSON file that cannot be written (its directory is gone) *)
+| JsonBroken (* stand-off STAM JSON file that cannot be written (its directory is gone) *)
+| TxtBroken.  (* stand-off plain text file that cannot be written *)
 
 Definition emit (sink : option nat) (t : tok) : cmd :=
   match sink with None => Emit t | Some f => FEmit f t end.
@@ -216,6 +217,10 @@ Fixpoint ser_member (fuel : nat) (sink : option nat) (i : nat) (k : fkind) : lis
       (* to_json_file: set NoInclude; open_file_writer fails; set AllowInclude (since 7e4eec1); Err *)
       [IfMode [emit sink (t_include i); IfChanged i [SetMode NoInc; SetMode Allow; Fail]]
               [emit sink (t_inline i)]]
+  | TxtBroken =>
+      (* std::fs::write fails: Err, mark_unchanged() is not reached *)
+      [IfMode [emit sink (t_include i); IfChanged i [Fail]]
+              [emit sink (t_inline i)]]
   end.
 
 Fixpoint ser_members (fuel : nat) (i : nat) (mem : list fkind) : list cmd :=
@@ -234,7 +239,11 @@ Inductive op :=
                                  OpMemberTrait now that the mode does not live in the Config *)
 | OpMemberThenStore (i : nat)  (* two calls on one thread: ToJson::to_json_string(member, store config),
                                  then store.to_json_string(): the mode must have been set back *)
-| OpStoreTwice.               (* store.to_json_string() twice on one thread, each call's result kept *)
+| OpStoreTwice                (* store.to_json_string() twice on one thread, each call's result kept *)
+| OpExport (i : nat)          (* resource.to_txt_file(<another directory>/<same file name>): an export; it
+                                 is not the stand-off file, the changed flag is left alone *)
+| OpSaveTxt (i : nat).        (* resource.to_txt_file(<its own stand-off filename>): writes the stand-off
+                                 file and then clears the flag (resources.rs to_txt_file) *)
 
 Definition kind_of (mem : list fkind) (i : nat) : fkind := nth i mem NoFile.
 
@@ -249,6 +258,13 @@ Definition prog (fuel : nat) (mem : list fkind) (o : op) : list cmd :=
       (Yield :: SetMode NoInc :: ser_member fuel None i (kind_of mem i) ++ [SetMode Allow; EndCall])
       ++ ser_members fuel 0 mem ++ [EndCall]
   | OpStoreTwice => Yield :: ser_members fuel 0 mem ++ EndCall :: ser_members fuel 0 mem ++ [EndCall]
+  | OpExport _ => [Yield]
+  | OpSaveTxt i =>
+      match kind_of mem i with
+      | Txt => [Yield; FEmit i (t_inline i); ClearChanged i]
+      | TxtBroken => [Yield; Fail]
+      | _ => [Yield]
+      end
   end.
 
 Definition model_fuel : nat := 6.
